@@ -59,8 +59,14 @@ func (dtm *GraphsyncFilecoinV1) MarshalBinary() ([]byte, error) {
 // UnmarshalBinary implements encoding.BinaryUnmarshaler.
 func (dtm *GraphsyncFilecoinV1) UnmarshalBinary(data []byte) error {
 	r := bytes.NewReader(data)
-	_, err := dtm.ReadFrom(r)
-	return err
+	n, err := dtm.ReadFrom(r)
+	if err != nil {
+		return err
+	}
+	if n != int64(len(data)) {
+		return dagcbor.ErrTrailingBytes
+	}
+	return nil
 }
 
 func (dtm *GraphsyncFilecoinV1) ReadFrom(r io.Reader) (n int64, err error) {
@@ -75,7 +81,8 @@ func (dtm *GraphsyncFilecoinV1) ReadFrom(r io.Reader) (n int64, err error) {
 	}
 
 	nb := graphSyncFilecoinV1Prototype.NewBuilder()
-	err = dagcbor.Decode(nb, cr)
+	// Other protocols may follow this one in the same metadata.
+	err = dagcbor.DecodeOptions{AllowLinks: true, DontParseBeyondEnd: true}.Decode(nb, cr)
 	if err != nil {
 		return cr.readCount, err
 	}
